@@ -4,5 +4,8 @@ patch="$1"; shift
 cd /repo || exit 2
 if [ -n "$(git status --porcelain)" ]; then echo "/repo not clean"; exit 2; fi
 git apply "$patch" || { echo "patch does not apply"; exit 2; }
-for id in "$@"; do (cd /verif && . ./env.sh && ${LL:-./bin/lndlint} check -verif ${LLVERIF:-/verif} "$id" 2>&1 | grep -E "^(OK|FAIL|VIOLATION|KNOWN)" | cut -c1-400); done
+# evidence of a seeded tree goes to a scratch directory, never to /verif/evidence
+scratch=${LLVERIF:-$(mktemp -d)}; mkdir -p "$scratch"; cp /verif/known_findings.json "$scratch"/ 2>/dev/null
+for id in "$@"; do (cd /verif && . ./env.sh && ${LL:-./bin/lndlint} check -verif "$scratch" "$id" 2>&1 | grep -E "^(OK|FAIL|VIOLATION|KNOWN)" | cut -c1-400); done
 git checkout -- . && git status --porcelain | head -3
+[ -z "$LLVERIF" ] && rm -rf "$scratch"
